@@ -221,8 +221,15 @@ class DTCWTInverse(nn.Module):
         mode = mode_to_int(self.mode)
         _, _, h_dim, w_dim = get_dimensions6(
             self.o_dim, self.ri_dim)
+        # None, a scalar placeholder or an empty tensor stand for zeros
+        if low is not None and (low.shape == torch.Size([]) or
+                                low.numel() == 0):
+            low = None
+        highs = [None if (s is not None and s.numel() == 0) else s
+                 for s in highs]
         for j, s in zip(range(J-1, 0, -1), highs[1:][::-1]):
-            if s is not None and s.shape != torch.Size([]):
+            if low is not None and s is not None and \
+                    s.shape != torch.Size([]):
                 assert s.shape[self.o_dim] == 6, "Inverse transform must " \
                     "have input with 6 orientations"
                 assert len(s.shape) == 6, "Bandpass inputs must have " \
@@ -241,7 +248,8 @@ class DTCWTInverse(nn.Module):
                                    self.g1b, self.o_dim, self.ri_dim, mode)
 
         # Ensure the low and highpass are the right size
-        if highs[0] is not None and highs[0].shape != torch.Size([]):
+        if low is not None and highs[0] is not None and \
+                highs[0].shape != torch.Size([]):
             r, c = low.shape[2:]
             r1, c1 = highs[0].shape[h_dim], highs[0].shape[w_dim]
             if r != r1 * 2:
